@@ -46,6 +46,9 @@ type Stream struct {
 	writes    []writeRec
 	closed    bool
 	feeding   int  // feeders still running
+	reuseBuf  bool   // io.Reader style: every Read returns a view of ONE buffer that the next Read overwrites
+	rbuf      []byte
+	rlast     int    // length of the view handed out last
 	idleEmpty bool // nothing to deliver: return a read of length 0 after a short pause instead of blocking
 	errAt     int  // index of the read before which one transient error is returned (-1 never)
 	errFired  bool
@@ -89,6 +92,13 @@ func (s *Stream) IsAlive() bool {
 
 func (s *Stream) Read(n int) ([]byte, error) {
 	s.mu.Lock()
+	if s.reuseBuf {
+		// the caller asked for the next read: the buffer is the transport's again
+		for k := 0; k < s.rlast && k < len(s.rbuf); k++ {
+			s.rbuf[k] = 0xEE
+		}
+		s.rlast = 0
+	}
 	for {
 		if s.closed {
 			s.mu.Unlock()
@@ -123,6 +133,15 @@ func (s *Stream) Read(n int) ([]byte, error) {
 		s.pending = s.pending[1:]
 	}
 	s.delivered = append(s.delivered, append([]byte{}, out...))
+	if s.reuseBuf {
+		if cap(s.rbuf) < len(out) {
+			s.rbuf = make([]byte, len(out), 2*len(out)+64)
+		}
+		s.rbuf = s.rbuf[:cap(s.rbuf)]
+		copy(s.rbuf, out)
+		s.rlast = len(out)
+		out = s.rbuf[:len(out):len(out)]
+	}
 	s.mu.Unlock()
 	return out, nil
 }
@@ -539,6 +558,8 @@ func (x *chanRun) run() {
 
 	s := newStream()
 	s.idleEmpty = idle
+	s.reuseBuf = x.r.intn(2) == 0 // the interface does not promise a fresh slice per Read
+	rep.Dims["transport-reuses-read-buffer"] = fmt.Sprint(s.reuseBuf)
 	x.s = s
 	var impl transport.Implementation = s
 	switch cfg.Kind {
